@@ -1,4 +1,5 @@
 import Hls.Props.C16
+import Hls.Props.C16Text
 #print axioms Hls.C16.built_functional
 #print axioms Hls.C16.built_prefix
 #print axioms Hls.C16.segments_grow_step
@@ -17,3 +18,8 @@ import Hls.Props.C16
 #print axioms Hls.C16.resolveRange_of_resolved
 #print axioms Hls.C16.built_prev_irrelevant
 #print axioms Hls.C16.slide_stable
+#print axioms Hls.C16T.rawLines_append_aux
+#print axioms Hls.C16T.rawLines_append
+#print axioms Hls.C16T.items_append_ok
+#print axioms Hls.C16T.map_ok_split
+#print axioms Hls.C16T.append_stable_text
